@@ -71,12 +71,17 @@ FAMILIES = ["poly", "exp", "sin", "cos", "lorentz", "gauss", "sqrt_end", "power"
 CONVERGENT = [f for f in FAMILIES if f != "divergent"]
 
 
-def draw(family: str, rng) -> dict:
-    """Draw JSON-serialisable parameters of one member (bounds included)."""
+def draw(family: str, rng, dyadic: bool = False) -> dict:
+    """Draw JSON-serialisable parameters of one member (bounds included).
+    dyadic: end points with few significant bits, so that the learner's recomputed
+    interval end points (a+b)/2 -+ (b-a)/2 are exact and no abscissa is evaluated twice."""
     w = 10.0 ** rng.uniform(-2, 1.2)
     a = rng.choice([0.0, -1.0, 1.0, rng.uniform(-5, 5), rng.uniform(-5, 5)])
     if rng.random() < 0.25:
         a, w = rng.choice([(0.0, 1.0), (-1.0, 2.0), (0.0, 3.0), (0.0, 2.0)])
+    if dyadic:
+        a = rng.choice([0.0, 0.0, 1.0, -1.0, -2.0, -0.5, 0.25, 3.0])
+        w = rng.choice([0.25, 0.5, 1.0, 1.0, 2.0, 3.0, 4.0, 8.0])
     b = a + w
     p = {"a": a, "b": b}
     if family == "poly":
@@ -266,60 +271,72 @@ class Outcome:
         self.n = 0
         self.igral = self.err = None
         self.done_events = []        # (npoints, igral, err, nivals) at every moment done() was observed True
+        self.ops = []
         self.error = None
         self.max_abs = 0.0
 
 
-def drive(mem: Member, tol: float, mode: str, rng, budget: int, check_every: int = 1, stop_at_done=True):
+def drive(mem: Member, tol: float, mode: str, rng, budget: int, stop_at_done=True, ops=None):
     """Run the real IntegratorLearner on `mem` until done() or `budget` evaluations.
     mode: 'seq1' ask(1)/tell(1); 'seqn' ask(k)/tell all in order; 'shuffle' ask up to 50,
-    tell a random part in random order, the rest stays in flight (and is delivered later)."""
+    tell a random part in random order, the rest stays in flight (and is delivered later).
+    `ops` (a recorded list of ["ask", k] / ["tell", i], i indexing the abscissae handed out
+    so far) replays a schedule exactly.  done() is evaluated after every tell."""
     il, _ = modules()
     L = il.IntegratorLearner(mem.f, bounds=(mem.a, mem.b), tol=tol)
     out = Outcome()
-    inflight: list[float] = []
-    since = 0
+    out.ops = []
+    asked: list[float] = []
+    inflight: list[int] = []
 
-    def observe():
-        nonlocal since
-        since = 0
+    def tell(i):
+        x = asked[i]
+        y = mem.f(x)
+        if math.isfinite(y):
+            out.max_abs = max(out.max_abs, abs(y))
+        out.ops.append(["tell", i])
+        L.tell(x, y)
+        out.n += 1
         if L.done():
             out.done_events.append((L.npoints, float(L.igral), float(L.err), len(L.ivals)))
             return True
         return False
 
+    def ask(k):
+        out.ops.append(["ask", k])
+        xs, _ = L.ask(k)
+        base = len(asked)
+        asked.extend(xs)
+        return list(range(base, base + len(xs)))
+
     try:
-        while out.n < budget:
-            if mode == "seq1":
-                k = 1
-            elif mode == "seqn":
-                k = rng.choice([2, 3, 4, 6, 8, 16, 33, 50])
-            else:
-                k = rng.randint(1, 50)
-            k = min(k, budget - out.n + 0)
-            xs, _ = L.ask(k)
-            if mode == "shuffle":
-                inflight += xs
-                rng.shuffle(inflight)
-                m = rng.randint(1, len(inflight))
-                batch, inflight = inflight[:m], inflight[m:]
-            else:
-                batch = xs
-            stop = False
-            for x in batch:
-                y = mem.f(x)
-                if math.isfinite(y):
-                    out.max_abs = max(out.max_abs, abs(y))
-                L.tell(x, y)
-                out.n += 1
-                since += 1
-                if since >= check_every and observe() and stop_at_done:
-                    stop = True
+        if ops is not None:
+            for o in ops:
+                if o[0] == "ask":
+                    ask(int(o[1]))
+                elif tell(int(o[1])) and stop_at_done:
                     break
-            if stop:
-                break
-            if observe() and stop_at_done:
-                break
+        else:
+            stop = False
+            while out.n < budget and not stop:
+                if mode == "seq1":
+                    k = 1
+                elif mode == "seqn":
+                    k = rng.choice([2, 3, 4, 6, 8, 16, 33, 50])
+                else:
+                    k = rng.randint(1, 50)
+                idx = ask(min(k, max(1, budget - out.n)))
+                if mode == "shuffle":
+                    inflight += idx
+                    rng.shuffle(inflight)
+                    m = rng.randint(1, len(inflight))
+                    batch, inflight = inflight[:m], inflight[m:]
+                else:
+                    batch = idx
+                for i in batch:
+                    if tell(i) and stop_at_done:
+                        stop = True
+                        break
         if out.done_events:
             out.status = "done"
     except il.DivergentIntegralError:
@@ -337,6 +354,24 @@ def drive(mem: Member, tol: float, mode: str, rng, budget: int, check_every: int
     except Exception:  # noqa: BLE001
         pass
     return out
+
+
+def l1_scale(L) -> float:
+    """sum over the approximating intervals of width * max |finite node value|: an upper
+    estimate of int |f|, the scale of the rounding error of the sum of contributions."""
+    s = 0.0
+    for iv in L.approximating_intervals:
+        fx = [abs(float(v)) for v in iv.fx if math.isfinite(v)]
+        s += abs(iv.b - iv.a) * (max(fx) if fx else 0.0)
+    return s
+
+
+def heuristic_leaves(L) -> int:
+    """approximating intervals whose error was never computed: completed at depth 0 while
+    the parent's own rule is incomplete, so `err` is still update_heuristic_err's
+    half-the-parent value."""
+    return sum(1 for iv in L.approximating_intervals
+               if iv.depth_complete == 0 and iv.parent is not None and iv.parent.depth_complete is None)
 
 
 def run_sequential(mem: Member, tol: float, n: int):
@@ -454,3 +489,63 @@ if __name__ == "__main__":  # small self-check of closed forms against scipy.qua
             scale = max(abs(m.exact), abs(v), 1e-300)
             worst = max(worst, (abs(v - m.exact) - 10 * e) / scale)
         print(f"{fam:10s} worst closed-form vs quad excess rel diff {worst:.2e}")
+
+
+# ----------------------------------------------------------------------
+# comparison with tests/algorithm_4.py
+
+
+def _near(x, y):
+    return abs(x - y) <= 4 * math.ulp(max(abs(x), abs(y), 5e-324))
+
+
+def reference_trajectory(mem: Member, tol: float, max_loops: int):
+    """States (nr_points, igral, err, n_intervals) of algorithm_4 after 1, 2, .. loops
+    (the function is deterministic, so re-running with N_loops = k reproduces a prefix)."""
+    a4 = algorithm_4_module()
+    out, status = [], "ok"
+    last = None
+    for k in range(1, max_loops + 1):
+        try:
+            ig, er, n, ivs = a4.algorithm_4(mem.fvec, mem.a, mem.b, tol, N_loops=k)
+        except a4.DivergentIntegralError as e:
+            status = "divergent"
+            out.append((e.nr_points, math.inf, None, 0))
+            break
+        st = (int(n), float(ig), float(er), len(ivs))
+        if st == last:               # the reference returned before using all its loops: finished
+            status = "finished"
+            break
+        out.append(st)
+        last = st
+    return out, status
+
+
+def learner_trajectory(mem: Member, tol: float, n_distinct: int, cap: int):
+    """Feed the learner one point at a time (the repo's run_integrator_learner) and record,
+    after every tell, (evaluations, near-duplicate evaluations so far, igral, err).
+    A near-duplicate is an abscissa within 4 ulp of one already evaluated: the learner
+    recomputes interval end points as (a+b)/2 -+ (b-a)/2, which can differ from the stored
+    end point in the last place; algorithm_4 re-uses the parent's values there."""
+    import bisect
+    il, _ = modules()
+    L = il.IntegratorLearner(mem.f, bounds=(mem.a, mem.b), tol=tol)
+    xs_sorted: list[float] = []
+    traj, dups, n, status = [], 0, 0, "ok"
+    try:
+        while n - dups <= n_distinct and n < cap:
+            pts, _ = L.ask(1)
+            for x in pts:
+                i = bisect.bisect_left(xs_sorted, x)
+                if (i < len(xs_sorted) and _near(xs_sorted[i], x)) or (i > 0 and _near(xs_sorted[i - 1], x)):
+                    dups += 1
+                xs_sorted.insert(i, x)
+                L.tell(x, mem.f(x))
+                n += 1
+                ig = float(L.igral) if L.approximating_intervals else math.nan
+                traj.append((n, dups, ig, float(L.err), len(L._stack)))
+    except il.DivergentIntegralError:
+        status = "divergent"
+    except RuntimeError:
+        status = "noimprove"
+    return traj, status, L
